@@ -403,8 +403,51 @@ fn check_in(dir: &Path, case: &Case, obs: &mut Obs) -> CaseResult {
     Ok(())
 }
 
+/// One file appender kept open for a very long time: `records` short records; the file is inspected after every
+/// 4099th append and at the end (an exact check after every one of them would be quadratic).
+#[derive(Serialize, Deserialize, Debug, Clone)]
+pub struct LongLife {
+    pub records: u32,
+    pub len: usize,
+}
+
+pub fn check_long(tmp: &Path, c: &LongLife, obs: &mut Obs) -> CaseResult {
+    let dir = scratch(tmp, "c04l");
+    let r = (|| -> CaseResult {
+        let path = dir.join("long.log");
+        let app = FileAppender::builder().encoder(make_encoder(&None)).build(&path).map_err(|e| Failure { sig: "C04:build".into(), msg: e.to_string() })?;
+        let mut expected_len = 0u64;
+        for i in 0..c.records {
+            let text = record_text(0, i, c.len);
+            match catch(|| append_msg(&app, &text)) {
+                Err(p) => return fail("C04:panic", format!("append #{} panicked: {}", i, p)),
+                Ok(Err(e)) => return fail("C04:append-error", format!("append #{} failed: {}", i, e)),
+                Ok(Ok(())) => {}
+            }
+            expected_len += text.len() as u64;
+            let on_disk = std::fs::metadata(&path).map(|m| m.len()).unwrap_or(0);
+            ensure!(on_disk == expected_len, if on_disk < expected_len { "C04:not-visible" } else { "C04:content" }, "after acknowledged append #{} of {} through one open appender the file has {} bytes, expected {}", i, c.records, on_disk, expected_len);
+            if i % 4099 == 0 || i + 1 == c.records {
+                let bytes = std::fs::read(&path).unwrap_or_default();
+                let recs = parse_stream(&bytes).map_err(|off| Failure { sig: "C04:interleaved".into(), msg: format!("after append #{}: the file is not a concatenation of whole records (offset {})", i, off) })?;
+                ensure!(recs.len() as u32 == i + 1 && recs.iter().enumerate().all(|(k, r)| r.seq == k as u32), "C04:lost-or-duplicated", "after append #{}: {} records in the file", i, recs.len());
+                obs.sub_evals += 1;
+            }
+        }
+        obs.nontrivial = true;
+        obs.class("one-open-file-for-more-than-65536-records");
+        Ok(())
+    })();
+    let _ = std::fs::remove_dir_all(&dir);
+    r
+}
+
 pub fn run(run: &Run) {
     let tmp = run.tmp.clone();
+    if run.worker.0 == 1 % run.worker.1 {
+        let t = tmp.clone();
+        run.eval_one("long-life", &LongLife { records: 70_000, len: 6 }, &move |c: &LongLife, o: &mut Obs| check_long(&t, c, o));
+    }
     let f = move |c: &Case, o: &mut Obs| check(&tmp, c, o);
     run.run_replays::<Case>("file", &f);
     run.search("file", run.tier.pick(600, 20_000), strategy(), &f);
@@ -419,6 +462,13 @@ pub fn replay(part: &str, case: serde_json::Value) -> Option<CaseResult> {
             let _ = std::fs::remove_dir_all(&tmp);
             Some(r)
         }
+        "long-life" => {
+            let tmp = std::env::temp_dir().join(format!("lv-replay-{}", std::process::id()));
+            std::fs::create_dir_all(&tmp).ok()?;
+            let r = check_long(&tmp, &serde_json::from_value(case).ok()?, &mut Obs::default());
+            let _ = std::fs::remove_dir_all(&tmp);
+            Some(r)
+        }
         _ => None,
     }
 }
@@ -426,7 +476,7 @@ pub fn replay(part: &str, case: serde_json::Value) -> Option<CaseResult> {
 pub fn meta() -> EvidenceMeta {
     EvidenceMeta {
         level: "exploration",
-        rule: "cases = pre-existing content (none / random bytes / earlier records, 0-1100 bytes) x append or truncate mode x encoder (pattern {m} or a multi-chunk harness encoder writing each record in 1-N write calls crossing the 1 KiB buffer) x 0-8 single-threaded appends (payload 0-3 KiB, sizes around 1023/1024/1025/2048/3073) checked through a fresh file handle after every call x an optional concurrent phase of 2-8 threads x 1-30 records with generated start stagger, during which designated records park INSIDE the appender's critical section (between two chunks) until another thread announces it is about to append, while a reader thread samples the file and checks that every record a writer has finished is visible, x appends after the phase; oracle: file == pre-existing (append) or empty (truncate, checked right after build) ++ concatenation of all acknowledged records; after joining: the tail parses into whole uncorrupted records, multiset equals the acknowledged records, per-thread order kept. Optional events before a single append: an append that unwinds (panicking Display argument), an append whose argument logs through another file appender (both records must land), another file appender failing in the middle of a record (nothing of it may appear here); record sizes include the neighbourhood of 8/16/64 KiB. non-trivial = a record > 1 KiB and (a record parked inside the critical section, or non-empty pre-existing content in append mode)".into(),
+        rule: "cases = pre-existing content (none / random bytes / earlier records, 0-1100 bytes) x append or truncate mode x encoder (pattern {m} or a multi-chunk harness encoder writing each record in 1-N write calls crossing the 1 KiB buffer) x 0-8 single-threaded appends (payload 0-3 KiB, sizes around 1023/1024/1025/2048/3073) checked through a fresh file handle after every call x an optional concurrent phase of 2-8 threads x 1-30 records with generated start stagger, during which designated records park INSIDE the appender's critical section (between two chunks) until another thread announces it is about to append, while a reader thread samples the file and checks that every record a writer has finished is visible, x appends after the phase; oracle: file == pre-existing (append) or empty (truncate, checked right after build) ++ concatenation of all acknowledged records; after joining: the tail parses into whole uncorrupted records, multiset equals the acknowledged records, per-thread order kept. Part long-life: 70 000 short records through one open appender, size checked after every append, content every 4099th. Optional events before a single append: an append that unwinds (panicking Display argument), an append whose argument logs through another file appender (both records must land), another file appender failing in the middle of a record (nothing of it may appear here); record sizes include the neighbourhood of 8/16/64 KiB. non-trivial = a record > 1 KiB and (a record parked inside the critical section, or non-empty pre-existing content in append mode)".into(),
         assumptions: vec!["OS scheduler not controlled: interleavings are amplified (parking inside the critical section, stagger, volume), a failing case replays with the same pressure but not the same OS interleaving".into()],
         mutants_caught: vec![],
     }
